@@ -139,9 +139,19 @@ func suiteTotality(R *runner, r *rng) {
 	if R.tier == "thorough" {
 		N = 60000
 	}
+	// a reader that did not return keeps its goroutine spinning: after two hangs of one reader no more input is fed to it
+	// in this run (the hangs are reported; piling up spinning goroutines would only slow everything else down)
+	hangs := map[string]int{}
 	run := func(rd readerEntry, data []byte, group, desc string) {
+		if hangs[rd.name] >= 2 {
+			R.count("total.skipped_after_hang." + rd.name)
+			return
+		}
 		var err error
 		res := guarded(func() { err = rd.read(data) }, 15*time.Second)
+		if res == "HANG" {
+			hangs[rd.name]++
+		}
 		o := &obs{Suite: "total", Group: group, NoModel: true, NT: res == "" && err == nil, Input: fmt.Sprintf("%s %s %s", rd.name, desc, hashBytes(data)),
 			Human: map[string]interface{}{"reader": rd.name, "input": desc, "len": len(data)}}
 		if res != "" && strings.Contains(res, "[inside the third-party demultiplexer]") {
